@@ -60,7 +60,7 @@ def run(tier, seed):
             {"prog": "exit", "strategy": "random", "runs": (40, 500), "args": ["--size", "9000000", "12000000"], "env": {"MIMALLOC_TARGET_SEGMENTS_PER_THREAD": "3"}, "tag": "tsptbig"}]
     V, cov2 = concfam.run_conc("C13", tier, seed, jobs, {"DestructiveAvoidsLive", "LiveAccessible", "ContentsKept.gen", "ContentsKept.bytes", "NoOverlap", "ZeroOK", "Invariant.Inv"},
                                mc=("MiSegment", ("MiSegment_mc.cfg", "MiSegment_mc.cfg")), guided_progs=(), V=V, finish=False)
-    cov["concurrent_purging"] = {k: cov2[k] for k in ("traces_validated_against_impl", "trace_events_validated", "programs", "strategies") if k in cov2}
+    cov["concurrent_purging"] = {k: cov2[k] for k in ("traces_validated_against_impl", "trace_events_validated", "program_names", "strategies") if k in cov2}
     cov["traces_validated_against_impl"] += cov2["traces_validated_against_impl"]
     return V.finish("model_checking", cov, assumptions=["decommitted memory being read by the allocator is observable only in dbg/sec builds (PROT_NONE => crash event)",
                                                          "concurrent part: SC interleavings at mi_atomic-macro granularity; a purge call of the OS layer is one event"])
